@@ -928,7 +928,9 @@ def stream_writes(R, RF, t):
                     sd = RF.diff_struct(before.structure(), after.structure())
                     case = {"stream": "writes", "fixture": fx, "handle": hn, "write": wname}
                     if outcome != "ok":
-                        pat = "tensorclass-set-inplace-rejected-under-lock" if (wname == "set-inplace" and RF.kind_of(h) == "tc" and outcome.startswith("RuntimeError")) else None
+                        has_nt = any(r[0] in ("nontensor", "nontensor-field") for r in before.rows.values())
+                        pat = ("tensorclass-set-inplace-rejected-under-lock" if (wname == "set-inplace" and RF.kind_of(h) == "tc" and outcome.startswith("RuntimeError"))
+                               else "inplace-write-over-nontensor-leaf-rejected-under-lock" if (has_nt and wname in ("apply_", "copy_", "update_", "update-inplace", "iadd", "zero_")) else None)
                         R.oracle_fail("inplace_write:rejected", case, {"outcome": outcome},
                                       {"call": wname, "effect": "write-rejected", "fixture": fx, "stream": "writes", "pattern": pat})
                     elif sd:
@@ -965,6 +967,8 @@ def stream_histories(R, nhist, nops):
                 kind, opsx, impl, model = h["mismatch"]
                 R.mismatch("history:" + kind, {"stream": "history", "hseed": h["seed"], "trace": h["trace"], "model_ops": h["model_ops"]},
                            {"at": opsx, "impl": impl}, model)
+                R.extra.setdefault("first_mismatches", []).append({"hseed": h["seed"], "kind": kind, "at": opsx, "impl": impl, "model": model,
+                                                                   "trace_tail": h["trace"][-8:]}) if len(R.extra.get("first_mismatches", [])) < 3 else None
             for (label, detail, sig) in h["oracle"]:
                 R.oracle_fail(label, {"stream": "history", "hseed": h["seed"], "trace": h["trace"], "model_ops": h["model_ops"]}, detail, sig)
     R.extra["history_scenarios"] = flags_tot
